@@ -67,10 +67,12 @@ fn unique_ok(docs: &Model) -> Result<(), String> {
 /// another operation that was acknowledged Ok acquired a value.
 fn release_race(case: &Case, out: &RunOut) -> bool {
     let n = case.ops.len();
-    let inflight_releaser = (0..n).any(|i| out.started[i] && out.acked[i].is_none() && matches!(case.ops[i], COp::Update { .. } | COp::Remove { .. }));
-    let failed_releaser = (0..n).any(|i| matches!(out.acked[i], Some(Ret::OtherErr(_))) && matches!(case.ops[i], COp::Update { .. } | COp::Remove { .. }));
-    let acquirer = (0..n).any(|i| matches!(out.acked[i], Some(Ret::AddOk(_)) | Some(Ret::Updated(_))));
-    (inflight_releaser || failed_releaser) && acquirer
+    let releaser = |i: usize| {
+        matches!(case.ops[i], COp::Update { .. } | COp::Remove { .. }) && out.started[i] && (out.acked[i].is_none() || matches!(out.acked[i], Some(Ret::OtherErr(_))))
+    };
+    // another operation that can acquire a value was started (acknowledged or itself in flight with
+    // its document write possibly landed)
+    (0..n).any(|i| releaser(i) && (0..n).any(|j| j != i && out.started[j] && matches!(case.ops[j], COp::Add(_) | COp::Update { .. })))
 }
 
 /// Invariants on a recovered (reopened) state.
@@ -96,7 +98,7 @@ fn check_recovered(case: &Case, pre: &SeqState, out: &RunOut, ctx: &mut CaseCtx,
     let n = case.ops.len();
     for i in 0..n {
         let Some(r) = &out.acked[i] else { continue };
-        let others_touch = |id: u64| (0..n).any(|j| j != i && doc_of(&case.ops[j]) == Some(id));
+        let others_touch = |id: u64| (0..n).any(|j| j != i && (doc_of(&case.ops[j]) == Some(id) || matches!(case.ops[j], COp::Add(_))));
         match (&case.ops[i], r) {
             (COp::Add(spec), Ret::AddOk(id)) => {
                 if rec.docs.get(id) != Some(&spec.fields()) && !others_touch(*id) {
@@ -128,6 +130,7 @@ fn check_recovered(case: &Case, pre: &SeqState, out: &RunOut, ctx: &mut CaseCtx,
     // documents nobody touched are unchanged
     for (id, dd) in &pre.docs {
         let touched = (0..n).any(|j| doc_of(&case.ops[j]) == Some(*id));
+        let _ = &touched;
         if !touched && rec.docs.get(id) != Some(dd) {
             return Err(format!("{what}: untouched document {id} changed across recovery"));
         }
@@ -179,7 +182,7 @@ pub fn check_fault(case: &Case, ch: &mut Chooser, fail: u64, ctx: &mut CaseCtx) 
         }
         if let (Ret::OtherErr(_), COp::Update { id, .. }) = (r, &case.ops[i]) {
             let id = *id as u64 + 1;
-            let others = (0..case.ops.len()).any(|j| j != i && doc_of(&case.ops[j]) == Some(id));
+            let others = (0..case.ops.len()).any(|j| j != i && (doc_of(&case.ops[j]) == Some(id) || out.rets[j] == Ret::AddOk(id)));
             if !others && out.fin.docs.get(&id) != pre.docs.get(&id) {
                 return Err(format!("release {fail} failed: the update of {id} that returned an error changed the document"));
             }
@@ -258,11 +261,15 @@ pub fn run_b_e(r: &mut Runner) {
             ctx.count("crash_runs", total);
             if known > 0 {
                 ctx.count("excluded_known_release_before_durable", known);
-                ctx.excluded.push(SIG_RELEASE.to_string());
             }
             match res {
                 Ok((n, _)) => {
                     ctx.count("schedules", n as u64);
+                    if known > 0 {
+                        // everything else held; report the listed finding (the runner prints KNOWN-FINDING
+                        // for a listed signature and counts the case as excluded, anything unlisted is a violation)
+                        return ctx.fail_sig(SIG_RELEASE, format!("{known} of {total} schedule x crash runs of this contender set end with two live documents sharing a unique value (value released before its release is durable)"));
+                    }
                     Ok(())
                 }
                 Err((_, e)) => Err(e),
